@@ -104,6 +104,40 @@ def twin_count(ul: bool, ulst: List[int], upresent: bool, ml: bool, mlst: List[i
     return False
 
 
+def check_count_shapes(upresent: bool, z0present: bool) -> bool:
+    """
+    pre: True
+    post: _
+    """
+    # case split over the (finite) shape space: every field scalar or a list of
+    # length 1..LMAX, timestamps absent or of length 0..TSMAX; the entries and the
+    # presence flags stay symbolic.  The lengths are concrete here so that code
+    # which hands the lists to a C extension (numpy) does not stall the engine;
+    # the entries are concrete for the same reason (numpy rejects proxy ints,
+    # "proxy intolerance"; they are symbolic in check_count_00..11).
+    pool = [11, 12, 13, 14, 15, 16]
+    for ku in range({LMAX} + 1):
+        for km in range({LMAX} + 1):
+            for ks in range({LMAX} + 1):
+                for kd in range({LMAX} + 1):
+                    for kt in range(-1, {TSMAX} + 1):
+                        ok = check_count(ku > 0, pool[:ku], upresent, km > 0, pool[:km], ks > 0, pool[:ks],
+                                         kd > 0, pool[:kd], z0present, kt >= 0, pool[:max(kt, 0)])
+                        if not ok:
+                            raise AssertionError("shape (0 = scalar) ustar=%d mol=%d wind_speed=%d wind_dir=%d timestamps=%d"
+                                                 % (ku, km, ks, kd, kt))
+    return True
+
+
+def twin_count_shapes(upresent: bool, z0present: bool) -> bool:
+    """
+    pre: True
+    post: _
+    """
+    check_count_shapes(upresent, z0present)
+    return False
+
+
 def check_step(ul: bool, ml: bool, sl: bool, dl: bool, lst1: List[int], lst2: List[int], lst3: List[int], lst4: List[int],
                us: int, ms: int, ss: int, ds: int, upresent: bool, z0present: bool, z0: int,
                tspresent: bool, ts: List[int], i: int) -> bool:
